@@ -912,3 +912,329 @@ Section Exec3.
         idxset. fin Hs.
   Qed.
 End Exec3.
+
+(* ---------------------------------------------------------------- Skip: upper bound of the result *)
+Lemma skip_step_upper rest idx depth r i d :
+  skip_step rest idx depth = SNext r i d -> 0 <= idx ->
+  i < Z.of_N two63 \/ i <= idx + Z.of_nat (length rest) + 8.
+Proof.
+  unfold skip_step.
+  destruct (dec_varint rest) as [[[wire n] rest1]|] eqn:Ed; [|discriminate].
+  apply dec_varint_consumes in Ed. destruct Ed as (pre & Hpre & Hn & Hlen).
+  assert (Hl1 : length rest = (length pre + length rest1)%nat) by (rewrite Hpre, app_length; reflexivity).
+  cbv zeta.
+  destruct (N.land (u64 wire) 7 =? 0)%N.
+  { destruct (skip_varint rest1) as [[n2 rest2]|] eqn:Es; [|discriminate].
+    apply skip_varint_aux_consumes in Es. destruct Es as (pre2 & Hp2 & Hn2 & Hl2).
+    assert (length rest1 = (length pre2 + length rest2)%nat) by (rewrite Hp2, app_length; reflexivity).
+    intro E. injection E as <- <- <-. intros _. right. lia. }
+  destruct (N.land (u64 wire) 7 =? 1)%N.
+  { intro E. injection E as <- <- <-. intros _. right. lia. }
+  destruct (N.land (u64 wire) 7 =? 2)%N.
+  { destruct (dec_varint rest1) as [[[raw n2] rest2]|] eqn:Ed2; [|discriminate].
+    destruct (Z.ltb_spec (s64 raw) 0) as [|Hlen0]; [discriminate|].
+    intro E. injection E as <- <- <-. intros _. left.
+    unfold wrap64. apply s64_lt. }
+  destruct (N.land (u64 wire) 7 =? 3)%N.
+  { intro E. injection E as <- <- <-. intros _. right. lia. }
+  destruct (N.land (u64 wire) 7 =? 4)%N.
+  { destruct (depth =? 0)%N; [discriminate|].
+    intro E. injection E as <- <- <-. intros _. right. lia. }
+  destruct (N.land (u64 wire) 7 =? 5)%N; [|discriminate].
+  intro E. injection E as <- <- <-. intros _. right. lia.
+Qed.
+
+Lemma skip_loop_upper fuel : forall rest idx depth n,
+  0 <= idx -> (rest <> [] -> idx + Z.of_nat (length rest) < Z.of_N two63) ->
+  skip_loop fuel rest idx depth = Ok n -> n < Z.of_N two63 + 8.
+Proof.
+  induction fuel as [|f IH]; intros rest idx depth n Hidx Hinv; cbn [skip_loop]; [discriminate|].
+  destruct rest as [|b t] eqn:Er; [discriminate|]. rewrite <- Er in *.
+  assert (Hne : rest <> []) by (rewrite Er; discriminate). specialize (Hinv Hne).
+  destruct (skip_step rest idx depth) as [|r i d] eqn:Es; [discriminate|].
+  pose proof (skip_step_upper _ _ _ _ _ _ Es Hidx) as Hup.
+  apply skip_step_next in Es. destruct Es as [Hl Hmove]. specialize (Hmove Hidx Hinv).
+  destruct (Z.ltb_spec i 0) as [|Hi]; [discriminate|].
+  destruct Hmove as [?|[Hlt Hsuf]]; [lia|].
+  destruct (d =? 0)%N.
+  - intro E. injection E as <-. lia.
+  - intro E. apply IH in E; [lia|lia|]. intro Hr. specialize (Hsuf Hr). lia.
+Qed.
+
+Lemma Skip_upper bs n : Z.of_nat (length bs) < Z.of_N two63 -> Skip bs = Ok n -> 1 <= n < Z.of_N two63 + 8.
+Proof.
+  intros Hl H. split; [eapply Skip_progress; eassumption|].
+  unfold Skip in H. eapply skip_loop_upper in H; [exact H|lia|]. intros _. lia.
+Qed.
+
+Lemma Skip_ok_or_err bs : (exists n, Skip bs = Ok n) \/ Skip bs = Err.
+Proof.
+  unfold Skip. destruct (skip_loop (S (length bs)) bs 0 0) as [n| | |] eqn:E; [left; eexists; reflexivity|right; reflexivity| |].
+  - exfalso. eapply skip_loop_not_panic. exact E.
+  - exfalso. eapply skip_loop_enough_fuel; [|exact E]. lia.
+Qed.
+
+Section Exec4.
+  Variable sch : schema.
+  Variable discard : bool.
+  Variable child : child_t.
+  Variable depth : Z.
+  Variable fs : list field.
+  Variable data : list byte.
+  Variable lfuel : nat.
+  Notation dlen := (Z.of_nat (length data)).
+  Hypothesis Hlen : dlen < Z.of_N two63.
+  Hypothesis Hlen8 : dlen + 8 < Z.of_N two63.
+
+  Notation exec' := (exec sch discard child depth fs data dlen lfuel).
+  Notation run' := (run_block sch discard child depth fs data dlen lfuel).
+  Notation cond' := (cond sch discard depth fs data dlen).
+  Notation eval' := (eval sch fs data dlen).
+  Notation eval_int' := (eval_int sch fs data dlen).
+  Notation atom' := (exec_atom sch child fs data dlen).
+  Notation block' := (block sch discard child depth fs data dlen lfuel).
+  Notation for_loop' := (for_loop sch discard child depth fs data dlen lfuel).
+  Notation sfx' := (sfx data).
+  Notation at_ z ss u := {| us_idx := z; us_rest := sfx data z; us_slots := ss; us_unk := u |}.
+
+  (* iNdEx = back; skippy, err := runtime.Skip(dAtA[iNdEx:]); the two bounds checks *)
+  Lemma run_skip back limit b en z0 z ss u lim :
+    env_get back en = Some (LV (VInt z0)) ->
+    (forall v, eval_int' limit ((UvSkippy, v) :: en) (at_ z0 ss u) = EOk lim) ->
+    0 <= z0 <= dlen -> 0 <= z <= dlen -> lim <= dlen ->
+    run' (u_skip back limit ++ b) en (at_ z ss u) =
+    match Skip (sfx' z0) with
+    | Ok skippy => if lim - z0 <? skippy then XDone Err
+                   else run' b ((UvSkippy, LV (VInt skippy)) :: en) (at_ z0 ss u)
+    | _ => XDone Err
+    end.
+  Proof.
+    intros Hb Hlim Hz0 Hz Hl. unfold u_skip. cbn [app].
+    erewrite run_idxset; [| |exact Hz|exact Hz0]. 2:{ unfold eval_int, u_v. cbn [eval]. rewrite Hb. reflexivity. }
+    atom. rewrite slice_from_at by lia. ev.
+    destruct (Skip_ok_or_err (sfx' z0)) as [[n Hn]|Hn]; rewrite Hn; ev; [|reflexivity].
+    pose proof (Skip_upper (sfx' z0) n) as Hup. rewrite sfx_len in Hup by lia. specialize (Hup ltac:(lia) Hn).
+    rewrite run_if_ret by discriminate. ev.
+    destruct (Z.ltb_spec n 0); [lia|]. ev.
+    destruct (Z.ltb_spec (z0 + n) (Z.of_N two63)) as [Hs|Hs].
+    - rewrite wrap64_small by lia. destruct (Z.ltb_spec (z0 + n) 0); [lia|]. ev.
+      rewrite run_if_ret by discriminate. cbn [cond]. rewrite Hlim. ev. rewrite wrap64_small by lia. ev. destruct (Z.ltb_spec lim (z0 + n)); destruct (Z.ltb_spec (lim - z0) n); try lia; reflexivity.
+    - pose proof (wrap64_big_neg (z0 + n) ltac:(zl)) as Hneg.
+      destruct (Z.ltb_spec (wrap64 (z0 + n)) 0); [|lia]. ev.
+      destruct (Z.ltb_spec (lim - z0) n); [reflexivity|lia].
+  Qed.
+
+  Lemma take_len_sfx z p r : 0 <= z <= dlen -> take_len (sfx' z) = Some (p, r) ->
+    exists z1 L, z < z1 /\ 0 <= L /\ z1 + L <= dlen /\ p = firstn (Z.to_nat L) (sfx' z1) /\ r = sfx' (z1 + L).
+  Proof.
+    intros Hz. unfold take_len.
+    destruct (dec_varint (sfx' z)) as [[[raw m] r1]|] eqn:Ed; [|discriminate].
+    destruct (dec_varint_sfx data z raw m r1 Hz Ed) as (-> & Hm1 & Hm2).
+    rewrite sfx_len by lia.
+    destruct (Z.ltb_spec (s64 raw) 0); [discriminate|].
+    destruct (Z.ltb_spec (dlen - (z + Z.of_nat m)) (s64 raw)); [discriminate|].
+    intro E. injection E as <- <-. exists (z + Z.of_nat m), (s64 raw). rewrite sfx_skipn by lia. repeat split; lia.
+  Qed.
+
+  Lemma dec_scalar_sfx k z v r : 0 <= z <= dlen -> dec_scalar k (sfx' z) = Some (v, r) ->
+    exists z', r = sfx' z' /\ z < z' <= dlen.
+  Proof.
+    intros Hz. unfold dec_scalar.
+    destruct k;
+      try (destruct (take_fixed 8 (sfx' z)) as [[n r0]|] eqn:E; [|discriminate]; intro H; injection H as _ <-;
+           destruct (take_fixed_inv data _ z n r0 Hz E) as (-> & ? & _); eexists; split; [reflexivity|lia]);
+      try (destruct (take_fixed 4 (sfx' z)) as [[n r0]|] eqn:E; [|discriminate]; intro H; injection H as _ <-;
+           destruct (take_fixed_inv data _ z n r0 Hz E) as (-> & ? & _); eexists; split; [reflexivity|lia]);
+      try (destruct (dec_varint (sfx' z)) as [[[raw n0] r0]|] eqn:E; [|discriminate]; intro H; injection H as _ <-;
+           destruct (dec_varint_sfx data z raw n0 r0 Hz E) as (-> & ? & ?); eexists; split; [reflexivity|lia]);
+      try (destruct (take_len (sfx' z)) as [[p0 r0]|] eqn:E; [|discriminate]; intro H; injection H as _ <-;
+           destruct (take_len_sfx z p0 r0 Hz E) as (z1 & L & ? & ? & ? & _ & ->); eexists; split; [reflexivity|lia]).
+  Qed.
+
+  Lemma N2Z_eqb a b : (Z.of_N a =? Z.of_N b) = (a =? b)%N.
+  Proof. destruct (Z.eqb_spec (Z.of_N a) (Z.of_N b)); destruct (N.eqb_spec a b); try reflexivity; lia. Qed.
+
+  (* ---- the packed run *)
+  Lemma packed_for k i f p : nth_error fs i = Some f -> f_ty f = TScalar k -> f_shape f = Rep p ->
+    forall fuel1 fuel2 en z post ss u s acc,
+    env_get UvPostIndex en = Some (LV (VInt post)) ->
+    0 <= z <= dlen -> nth_error ss i = Some s -> (s = VNil \/ exists l, s = VList l) ->
+    (forall v, list_append s v = list_append acc v) -> (post <= z -> s = acc) ->
+    (length (sfx' z) < fuel1)%nat -> (length (sfx' z) < fuel2)%nat ->
+    for_loop' fuel1 (CCmp OLt EIdx (u_v UvPostIndex)) (u_item IRep i f) en (at_ z ss u) =
+    match packed_loop fuel2 k (post - z) acc (sfx' z) with
+    | Ok (s', r) => XNext en (at_ (dlen - Z.of_nat (length r)) (set_nth ss i s') u)
+    | Err => XDone Err | Panic => XDone Panic | OutOfFuel => XDone OutOfFuel
+    end.
+  Proof.
+    intros Hf Hty Hsh. assert (Hit : u_item IRep i f = u_item_scalar IRep i k) by (unfold u_item; rewrite Hsh, Hty; reflexivity).
+    rewrite Hit.
+    induction fuel1 as [|fuel1 IH]; intros fuel2 en z post ss u s acc Hpost Hz Hs Hsv Happ Hex Hf1 Hf2; [lia|].
+    destruct fuel2 as [|fuel2]; [lia|].
+    cbn [for_loop packed_loop]. ev. rewrite Hpost. ev.
+    destruct (Z.ltb_spec z post) as [Hlt|Hge]; destruct (Z.leb_spec (post - z) 0) as [Hk|Hk]; try lia.
+    - rewrite (item_scalar sch discard child depth fs data lfuel Hlen Hlen8 IRep k i f s 0%nat en z ss u Hz Hf Hs).
+      2:{ cbn [mode_ok]. split; [eauto|exact Hsv]. }
+      destruct (dec_scalar k (sfx' z)) as [[v r]|] eqn:Ed; [|reflexivity].
+      destruct (dec_scalar_sfx k z v r Hz Ed) as (z' & -> & Hz').
+      rewrite !sfx_len by lia. replace (dlen - (dlen - z')) with z' by lia.
+      cbn [putm]. rewrite (nth_error_nth' ss i s VNil Hs).
+      assert (Hi : (i < length ss)%nat) by (apply nth_error_Some; congruence).
+      rewrite (IH fuel2 en z' post (set_nth ss i (list_append s v)) u (list_append s v) (list_append acc v)); try lia.
+      + replace (post - z - (dlen - z - (dlen - z'))) with (post - z') by lia.
+        destruct (packed_loop fuel2 k (post - z') (list_append acc v) (sfx' z')) as [[s' r']| | |]; try reflexivity.
+        rewrite set_nth_set_nth. reflexivity.
+      + exact Hpost.
+      + apply nth_error_set_nth. exact Hi.
+      + right. unfold list_append. destruct s; eauto.
+      + intro v0. rewrite Happ. reflexivity.
+      + intros _. apply Happ.
+      + pose proof (sfx_len data z' ltac:(lia)). pose proof (sfx_len data z Hz). lia.
+      + pose proof (sfx_len data z' ltac:(lia)). pose proof (sfx_len data z Hz). lia.
+    - rewrite sfx_len by lia. replace (dlen - (dlen - z)) with z by lia.
+      rewrite <- (Hex ltac:(lia)). rewrite set_nth_same by exact Hs. reflexivity.
+  Qed.
+
+  Lemma env_restore_idem en x : env_restore en (env_restore en x) = env_restore en x.
+  Proof.
+    unfold env_restore. rewrite skipn_length.
+    replace (length x - (length x - length en) - length en)%nat with 0%nat by lia. reflexivity.
+  Qed.
+  Lemma leave_block a en st : leave en (block' a en st) = block' a en st.
+  Proof. unfold block. destruct (run' a en st); cbn [leave]; try reflexivity. rewrite env_restore_idem. reflexivity. Qed.
+  Lemma block_ifelse c a a' en st :
+    block' [UsIfElse c a a'] en st = xlift (cond' c en st) (fun t => if t then block' a en st else block' a' en st).
+  Proof.
+    unfold block at 1. rewrite run_ifelse. destruct (cond' c en st) as [[|]| |]; cbn [xlift leave]; try reflexivity.
+    - rewrite <- (leave_block a en st) at 2. destruct (block' a en st); reflexivity.
+    - rewrite <- (leave_block a' en st) at 2. destruct (block' a' en st); reflexivity.
+  Qed.
+  Lemma block_ret e en st : e <> ErNil -> block' (u_ret e) en st = XDone Err.
+  Proof. intro He. unfold block, u_ret. cbn [run_block exec exec_atom leave]. destruct e; try reflexivity. congruence. Qed.
+  Lemma block_if_ret_cons c e b en st : e <> ErNil ->
+    block' (UsIf c (u_ret e) :: b) en st = xlift (cond' c en st) (fun t => if t then XDone Err else block' b en st).
+  Proof. intro He. unfold block. rewrite run_if_ret by exact He. destruct (cond' c en st) as [[|]| |]; reflexivity. Qed.
+
+  Lemma count_lt128_bounds bs : 0 <= count_lt128 bs <= Z.of_nat (length bs).
+  Proof. induction bs as [|b t IH]; cbn [count_lt128 length]; [lia|]. destruct (b2n b <? 128)%N; lia. Qed.
+
+  Lemma run_element_count k b en z L ss u : 0 <= z <= dlen -> 0 <= L -> z + L <= dlen ->
+    exists pre ec, (pre = [] \/ exists c, pre = [(UvCount, c)]) /\ 0 <= ec /\ (L = 0 -> ec = 0) /\
+    run' (u_element_count k ++ b)
+         ((UvElementCount, LV (VInt 0)) :: (UvPostIndex, LV (VInt (z + L))) :: (UvPackedLen, LV (VInt L)) :: en) (at_ z ss u) =
+    run' b (pre ++ (UvElementCount, LV (VInt ec)) :: (UvPostIndex, LV (VInt (z + L))) :: (UvPackedLen, LV (VInt L)) :: en) (at_ z ss u).
+  Proof.
+    intros Hz HL Hzl.
+    assert (Hq : forall n, 0 < n -> 0 <= Z.quot L n /\ (L = 0 -> Z.quot L n = 0)).
+    { intros n Hn. split; [apply Z.quot_pos; lia|]. intros ->. apply Z.quot_0_l. lia. }
+    destruct k; unfold u_element_count; cbn [app];
+      try (exists [], 0; split; [left; reflexivity|]; split; [lia|]; split; [reflexivity|]; reflexivity);
+      try (exists [], (Z.quot L 8); split; [left; reflexivity|]; split; [apply Hq; lia|]; split; [apply Hq; lia|]; atom; reflexivity);
+      try (exists [], (Z.quot L 4); split; [left; reflexivity|]; split; [apply Hq; lia|]; split; [apply Hq; lia|]; atom; reflexivity);
+      try (exists [], L; split; [left; reflexivity|]; split; [lia|]; split; [auto|]; atom; reflexivity);
+      try (pose proof (count_lt128_bounds (firstn (Z.to_nat (z + L - z)) (sfx' z))) as Hc;
+           rewrite firstn_length in Hc; pose proof (sfx_len data z Hz) as Hsl;
+           exists [(UvCount, LV (VInt (count_lt128 (firstn (Z.to_nat (z + L - z)) (sfx' z)))))], (count_lt128 (firstn (Z.to_nat (z + L - z)) (sfx' z)));
+           split; [right; eexists; reflexivity|]; split; [lia|]; split;
+           [intros ->; replace (z + 0 - z) with 0 by lia; reflexivity|];
+           atom; atom; rewrite slice_at by lia; ev; rewrite wrap64_small by lia; cbn [Z.add]; atom; reflexivity).
+  Qed.
+
+  Definition res_of (en : env) (o : outcome (val * list byte)) : xres :=
+    match o with
+    | Ok (msg', r) => XNext en (at_ (dlen - Z.of_nat (length r)) (slots_of msg') (unk_of msg'))
+    | Err => XDone Err | Panic => XDone Panic | OutOfFuel => XDone OutOfFuel
+    end.
+
+  Variable md : msgdesc.
+  Hypothesis Hmd : m_fields md = fs.
+  Hypothesis Hfuel : (length data < lfuel)%nat.
+
+  Lemma case_rep_scalar i f k p wtN en z ss u s :
+    nth_error fs i = Some f -> f_ty f = TScalar k -> f_shape f = Rep p ->
+    env_get UvWireType en = Some (LV (VInt (Z.of_N wtN))) -> 0 <= z <= dlen ->
+    nth_error ss i = Some s -> (s = VNil \/ exists l, s = VList l) ->
+    block' (u_case i f) en (at_ z ss u) = res_of en (field_item sch child md i f wtN (VMsg ss u) (sfx' z)).
+  Proof.
+    intros Hf Hty Hsh Hwt Hz Hs Hsv.
+    assert (Hi : (i < length ss)%nat) by (apply nth_error_Some; congruence).
+    assert (Hpf : plain_field fs i = Some f) by (unfold plain_field; rewrite Hf, Hsh; reflexivity).
+    assert (Hit : u_item IRep i f = u_item_scalar IRep i k) by (unfold u_item; rewrite Hsh, Hty; reflexivity).
+    assert (Hnth : nth i ss VNil = s) by (apply nth_error_nth'; exact Hs).
+    unfold u_case, field_item. rewrite Hsh, Hty. cbn [slots_of unk_of]. rewrite Hnth.
+    destruct (negb (kind_wt k =? WT_BYTES)%N) eqn:Ewb.
+    - rewrite block_ifelse. ev. rewrite Hwt. ev. rewrite N2Z_eqb.
+      destruct (wtN =? kind_wt k)%N.
+      + rewrite Hit. rewrite (item_scalar sch discard child depth fs data lfuel Hlen Hlen8 IRep k i f s 0%nat en z ss u Hz Hf Hs).
+        2:{ cbn [mode_ok]. split; [eauto|exact Hsv]. }
+        destruct (dec_scalar k (sfx' z)) as [[v r]|]; [|reflexivity]. cbn [res_of slots_of unk_of putm]. rewrite Hnth. reflexivity.
+      + rewrite block_ifelse. ev. rewrite Hwt. ev. change 2 with (Z.of_N 2). rewrite N2Z_eqb.
+        change (wtN =? WT_BYTES)%N with (wtN =? 2)%N.
+        destruct (wtN =? 2)%N eqn:E2; [|apply block_ret; discriminate].
+        unfold block. cbn [app]. atom. rewrite run_varint_var by side.
+        destruct (dec_varint (sfx' z)) as [[[raw m] r1]|] eqn:Ed; [|reflexivity].
+        destruct (dec_varint_sfx data z raw m r1 Hz Ed) as (-> & Hm1 & Hm2).
+        ev. autorewrite with vals. lencheck. rewrite sfx_len by lia.
+        destruct (Z.ltb_spec (s64 raw) 0) as [|E1]; [reflexivity|].
+        destruct (Z.ltb_spec (dlen - (z + Z.of_nat m)) (s64 raw)) as [|E3]; [reflexivity|].
+        remember (z + Z.of_nat m) as z1 eqn:Ez1. remember (s64 raw) as L eqn:EL.
+        atom.
+        destruct (run_element_count k
+                   [UsIf (CAnd (CCmp ONe (u_v UvElementCount) (ENum 0)) (CCmp OEq (ELenF i) (ENum 0)))
+                         [UsFieldSet i (EMakeList (u_v UvElementCount))];
+                    UsFor (CCmp OLt EIdx (u_v UvPostIndex)) (u_item IRep i f)] en z1 L ss u ltac:(lia) ltac:(lia) ltac:(lia))
+          as (pre & ec & Hpre & Hec0 & HecL & ->).
+        assert (Hfin : forall en' ss', env_get UvPostIndex en' = Some (LV (VInt (z1 + L))) -> env_restore en en' = en ->
+                  nth_error ss' i = Some (if (negb (ec =? 0) && match s with VNil => true | _ => false end)%bool then VList [] else s) ->
+                  (forall x, set_nth ss' i x = set_nth ss i x) ->
+                  leave en (run' [UsFor (CCmp OLt EIdx (u_v UvPostIndex)) (u_item IRep i f)] en' (at_ z1 ss' u)) =
+                  res_of en match packed_loop (S (length (sfx' z1))) k L s (sfx' z1) with
+                            | Ok (s', r) => Ok (VMsg (set_nth ss i s') u, r)
+                            | Err => Err | Panic => Panic | OutOfFuel => OutOfFuel end).
+        { intros en' ss' Hp Hr Hs' Hset. rewrite run_for.
+          rewrite (packed_for k i f p Hf Hty Hsh lfuel (S (length (sfx' z1))) en' z1 (z1 + L) ss' u _ s Hp ltac:(lia) Hs').
+          - replace (z1 + L - z1) with L by lia.
+            destruct (packed_loop (S (length (sfx' z1))) k L s (sfx' z1)) as [[s' r']| | |]; try reflexivity.
+            rewrite run_nil. cbn [leave res_of slots_of unk_of]. rewrite Hr, Hset. reflexivity.
+          - destruct (negb (ec =? 0) && match s with VNil => true | _ => false end)%bool; [right; exists []; reflexivity|exact Hsv].
+          - intro v. destruct (negb (ec =? 0) && match s with VNil => true | _ => false end)%bool eqn:E; [|reflexivity].
+            destruct s; try (rewrite andb_false_r in E; discriminate). reflexivity.
+          - intro Hle. destruct (Z.eqb_spec ec 0) as [->|Hne]; [reflexivity|]. assert (L <> 0) by (intro; apply Hne; auto). lia.
+          - pose proof (sfx_len data z1 ltac:(lia)). lia.
+          - lia. }
+        assert (Hlf : forall en', eval' (ELenF i) en' (at_ z1 ss u) =
+                   match s with VNil => EOk (LV (VInt 0)) | VList l => EOk (LV (VInt (Z.of_nat (length l)))) | _ => EStuck end).
+        { intros en'. cbn [eval]. rewrite Hpf. unfold slot. cbn [us_slots]. rewrite Hs. destruct Hsv as [-> | [l ->]]; reflexivity. }
+        assert (Hbody : forall en', env_get UvElementCount en' = Some (LV (VInt ec)) ->
+                  env_get UvPostIndex en' = Some (LV (VInt (z1 + L))) -> env_restore en en' = en ->
+                  leave en (run' [UsIf (CAnd (CCmp ONe (u_v UvElementCount) (ENum 0)) (CCmp OEq (ELenF i) (ENum 0)))
+                                       [UsFieldSet i (EMakeList (u_v UvElementCount))];
+                                  UsFor (CCmp OLt EIdx (u_v UvPostIndex)) (u_item IRep i f)] en' (at_ z1 ss u)) =
+                  res_of en match packed_loop (S (length (sfx' z1))) k L s (sfx' z1) with
+                            | Ok (s', r) => Ok (VMsg (set_nth ss i s') u, r)
+                            | Err => Err | Panic => Panic | OutOfFuel => OutOfFuel end).
+        { intros en' Hec Hp Hr. rewrite run_if. cbn [cond]. unfold eval_int. rewrite Hlf. ev. rewrite Hec. ev.
+          destruct (Z.eqb_spec ec 0) as [->|Hne]; ev.
+          - apply Hfin; [exact Hp|exact Hr|exact Hs|reflexivity].
+          - destruct Hsv as [-> | [l ->]]; ev.
+            + unfold block. atom. rewrite Hec. ev. destruct (Z.ltb_spec ec 0); [lia|]. ev. rewrite run_nil. ev. rewrite env_restore_refl.
+              apply Hfin; [exact Hp|exact Hr| |].
+              * cbn [negb andb]. apply nth_error_set_nth. exact Hi.
+              * intro x0. apply set_nth_set_nth.
+            + destruct l as [|x l]; cbn [length]; ev.
+              * unfold block. atom. rewrite Hec. ev. destruct (Z.ltb_spec ec 0); [lia|]. ev. rewrite run_nil. ev. rewrite env_restore_refl.
+                apply Hfin; [exact Hp|exact Hr| |].
+                -- cbn [negb andb]. apply nth_error_set_nth. exact Hi.
+                -- intro x0. apply set_nth_set_nth.
+              * destruct (Z.eqb_spec (Z.pos (Pos.of_succ_nat (length l))) 0); [lia|]. ev.
+                apply Hfin; [exact Hp|exact Hr|rewrite andb_false_r; exact Hs|reflexivity]. }
+        destruct Hpre as [-> | [c ->]]; cbn [app]; apply Hbody; try reflexivity;
+          repeat (rewrite env_restore_cons by (cbn [length]; lia)); apply env_restore_refl.
+    - rewrite block_if_ret_cons by discriminate. ev. rewrite Hwt. ev. change 2 with (Z.of_N 2). rewrite N2Z_eqb.
+      change (wtN =? WT_BYTES)%N with (wtN =? 2)%N.
+      destruct (wtN =? 2)%N; [|reflexivity]. cbn [negb].
+      rewrite Hit. rewrite (item_scalar sch discard child depth fs data lfuel Hlen Hlen8 IRep k i f s 0%nat en z ss u Hz Hf Hs).
+      2:{ cbn [mode_ok]. split; [eauto|exact Hsv]. }
+      destruct (dec_scalar k (sfx' z)) as [[v r]|]; [|reflexivity]. cbn [res_of slots_of unk_of putm]. rewrite Hnth. reflexivity.
+  Qed.
+End Exec4.
